@@ -110,6 +110,11 @@ GRAMMARS = [
      {'cap': 3, 'maxch': 2, 'maxd': 2, 'maxn': 4, 'action': 'bool',
       'reach': [('e.r == 0 && %s && c12_veto(101, sp_start) == 0' % OK0, 'action vetoes a rule that matched: no node, no tree'), ('e.r == 1 && ts_n == 3', 'tree with three nodes'),
                 ('e.r == 3 && e.id >= 3000', 'action throws')]}),
+    ('veto_sor', 'named< 0, sor< named< 1, %s >, %s >, %s >' % (S0, N2, S1),
+     {'all': ALL, 'inner_only': {101: 'store', 102: 'store'}},
+     {'cap': 4, 'maxch': 2, 'maxd': 2, 'maxn': 4, 'action': 'bool',
+      'reach': [('e.r == 1 && %s && c12_veto(101, sp_start) == 0' % OK0, 'the action vetoes a rule that matched, the enclosing choice goes on and succeeds: no node of the vetoed rule'),
+                ('e.r == 1 && ts_n >= 1 && ts_id[ts_n - 1] == 101', 'first alternative kept')]}),
     ('trycatch_act', 'sor< try_catch_type_return_false< foreign_exc, named< 1, %s > >, %s >' % (S0, N2),
      {'all': ALL},
      {'cap': 4, 'maxch': 2, 'maxd': 1, 'maxn': 3, 'action': 'bool', 'maxres': 1, 'stack': ['all'],
